@@ -129,7 +129,7 @@ def state_after(steps):
     if steps in _SEQ_MEMO:
         return _SEQ_MEMO[steps]
     if not steps:
-        blob = c20.initial_state()[1]
+        blob = c20.initial_state(0)[1]
     else:
         blob = state_after(steps[:-1])
         path = c20.materialise(blob)
@@ -312,7 +312,7 @@ def match_rows(rows, x, y, step, absolute_base):
             else:
                 for n, v in rows.items():
                     mean, tol = want[n]
-                    if abs(v - base - float(mean)) > max(
+                    if not abs(v - base - float(mean)) <= max(
                             tol, 1e-9 * max(abs(float(mean)), 1.0)):
                         why = ('value',
                                'level %d: stored %r, mean crossing of the '
